@@ -870,7 +870,7 @@ def gcc_search(ctx, impl):
             with open(os.path.join(work, 'main.c'), 'w') as f:
                 f.write('#include <stdio.h>\ndouble callee(%s);\nint main(){ printf("%%.1f\\n", callee(%s)); return 0; }\n'
                         % (params, ', '.join(str(v) for v in vals)))
-            p = subprocess.run('gcc -no-pie main.c callee.o -o t.exe 2>/dev/null && ./t.exe', shell=True, cwd=work,
+            p = subprocess.run('gcc -no-pie main.c callee.o -o t.exe 2>/dev/null && timeout -s KILL 20 ./t.exe', shell=True, cwd=work,
                                stdout=subprocess.PIPE, stderr=subprocess.DEVNULL, text=True, timeout=60)
             done += 1
             got = p.stdout.strip()
